@@ -208,7 +208,7 @@ def panic_condition(run, f, det):
     for blk in b.blocks:
         if blk.term["k"] != "switch" or blk.idx not in cfg.live:
             continue
-        s = strip_wrappers(tr.norm(tr.operand(blk.term["discr"])))
+        s = strip_wrappers(tr.norm(tr.operand_at(blk.idx, blk.term["discr"])))
         is_cond = s == ("call", hp, det.hp_def) or (s[0] == "binop" and s[1] == "Eq" and blk.idx in det.region | {det.acquire})
         if is_cond:
             t = blk.term
